@@ -235,7 +235,7 @@ pub struct Worker {
 
 impl Worker {
     pub fn spawn() -> std::io::Result<Worker> {
-        let exe = std::env::current_exe()?;
+        let exe = crate::engine::own_exe();
         let mut child = Command::new(exe)
             .arg("worker")
             .stdin(Stdio::piped())
